@@ -103,3 +103,8 @@ M.contract('xtuml.meta.MetaClass.navigate@across-a-link-class', [('self', MC), (
                                'collected-so-far': 'inst_set is not None and fresh(inst_set) and all((x in inst_set.view) == any(x in partners(l2, _seq[j]) for j in range(0, _i)) for x in anyref("Class"))',
                                'other-sets-untouched': 'all(implies(s is not inst_set, s.view == old(s.view)) for s in anyref("OrderedSet"))'},
                           modifies=['OrderedSet.view'])})
+M.contract('xtuml.meta.MetaClass.navigate@direct', [('self', MC), ('inst', INST), ('kind', STR), ('rel_id', STR), ('phrase', STR, "''")],
+           returns=SeqT(INST),
+           requires={'a-direct-link': '(upper(kind), rel_id, phrase) in self.links and self.links[(upper(kind), rel_id, phrase)] is not None'},
+           ensures={'the-partners-across-that-link-in-link-order-class-name-in-any-spelling':
+                    'result == partners(self.links[(upper(kind), rel_id, phrase)], inst)'}, modifies=[])
